@@ -1,4 +1,5 @@
 """generators and implementation-side judges for C04 (no model knowledge in here)"""
+import re
 
 IDENTS = ['a', 'b', 'div', 'p', 'x', 'foo', 'h1', 'li', 'em', 'td']
 DECLS = [
@@ -300,6 +301,37 @@ def ident_garbage(rng):
     return Garbage(' ' + ' '.join(parts) + rng.choice(['', ' ']) + ';', 'decl:ident-blocks', invalid=True)
 
 
+# -- selectors from the selector grammar's own pieces (valid or not: decided on the rule alone) -----------------
+# every kind of simple-selector piece and every token class selector.py has an "Unexpected ..." branch for
+SEL_PIECES = ['a', '*', '.c', '#i', '[x]', '[x=y]', '[x~="s t"]', '[x|=y]', '[p|x^=y]', ':hover', '::before',
+              ':not(.n)', ':not(b)', ':nth-child(2n+1)', ':lang(fr)', 'p|a', '*|a', '|a', 'p|*', 'q|a', 'p|', 'a.b',
+              '2n', '+1', '1', '50%', '=', '~=', '|=', '^=', '"s"', '@x', '!', '$', ':', '::', ',', '>', '+', '~',
+              '/*c*/', 'U+20', 'f(x)']
+# contexts: top level (after nothing / a type selector / a combinator), inside :not( ), [ ], a functional pseudo,
+# each also followed by further tokens of the same selector
+SEL_WRAPPERS = ['%s', 'x %s', 'x%s', 'x > %s', 'x:not(%s)', 'x[%s]', 'x:nth-child(%s)', 'x:not(%s) y', 'x[%s] y',
+                'x[y=%s]', '%s, z', 'z, %s', 's|%s z']
+
+
+def selector_cases():
+    """every ordered pair of pieces, glued and spaced, in every context (about 48 k selectors, all bracket-balanced)"""
+    for w in SEL_WRAPPERS:
+        for a in SEL_PIECES:
+            for b in SEL_PIECES:
+                for j in ('', ' '):
+                    yield w % (a + j + b)
+        for a in SEL_PIECES:
+            yield w % a
+
+
+def grammar_selector(rng):
+    n = rng.choice([1, 2, 2, 3])
+    inner = rng.choice(['', ' ']).join(rng.choice(SEL_PIECES) for _ in range(n))
+    if rng.random() < 0.3:
+        inner = rng.choice(['x:not(%s)', 'x[%s]', ':nth-child(%s)', '[y=%s]']) % inner + rng.choice(['', ' ', '.k', ' y'])
+    return rng.choice(SEL_WRAPPERS) % inner
+
+
 def gen_garbage(rng, where):
     """text to insert at an injection point of kind `where`"""
     base = where.split('+')[0]
@@ -321,6 +353,12 @@ def gen_garbage(rng, where):
         return Garbage(' ' + rng.choice(UNKNOWN_AT) + ' ', 'decl:at-rule')
     # statement level
     r = rng.random()
+    if r < 0.2:
+        # a rule whose selector is put together from the selector grammar's pieces: valid or invalid, the judge
+        # asks the implementation on the rule alone (and a rule it raises on is judged on the damaged sheet)
+        body = ';'.join(n + ':' + v for n, v in [rng.choice(DECLS) for _ in range(rng.choice([0, 1, 2]))])
+        return Garbage(' ' + grammar_selector(rng) + rng.choice(['', ' ']) + '{' + body + '}' + rng.choice(['', ' ']),
+                       'stmt:selector-grammar')
     if r < 0.4:
         sel = rng.choice(BAD_SELECTORS_BALANCED)
         body = ';'.join(n + ':' + v for n, v in [rng.choice(DECLS) for _ in range(rng.choice([0, 1, 2]))])
@@ -341,7 +379,10 @@ def gen_garbage(rng, where):
                    + rng.choice([';', '{' + balanced(rng, 1, True) + '}']) + ' ', 'stmt:at-soup')
 
 
-def residue_of(g, where, parse_real):
+NS_STMT = re.compile(r'@namespace[^;{}]*;', re.I)
+
+
+def residue_of(g, where, parse_real, prelude=''):
     """what the garbage alone leaves in the DOM (the damaged construct itself), or None if the implementation
     takes the garbage for (or finds inside it) a valid construct"""
     base = where.split('+')[0]
@@ -360,18 +401,26 @@ def residue_of(g, where, parse_real):
     if g.kind == 'stmt:misplaced':
         return []
     if base == 'stmt':
-        dom = parse_real(g.text)
+        dom = parse_real(prelude + g.text)
         if isinstance(dom, tuple):
             return []
+        if prelude:
+            dom = [r for r in dom if r[0] != 'namespace']
+        if g.kind == 'stmt:selector-grammar' and all(r[0] in ('style', 'comment') for r in dom):
+            return dom           # a rule the implementation accepts: the construct itself, nothing else may change
         if any(r[0] not in ('unknown', 'comment') for r in dom):
             return None
         return dom
-    dom = parse_real('@media all{' + g.text + '}')
+    dom = parse_real(prelude + '@media all{' + g.text + '}')
     if isinstance(dom, tuple):
         return []
+    if prelude:
+        dom = [r for r in dom if r[0] != 'namespace']
     if len(dom) != 1 or dom[0][0] != 'media':
         return None
     inner = dom[0][3]
+    if g.kind == 'stmt:selector-grammar' and all(r[0] in ('style', 'comment') for r in inner):
+        return inner
     if any(r[0] not in ('unknown', 'comment') for r in inner):
         return None
     return inner
